@@ -64,10 +64,12 @@ def main():
             sh('git', '-C', '/repo', 'worktree', 'remove', '--force', wt)
             shutil.rmtree(wt, ignore_errors=True)
         results.append(r)
-        print('%-5s %-4s %s %s' % (m['id'], m['property'], 'CAUGHT' if r.get('caught') else 'MISSED(exit %s)' % r.get('exit'), (r.get('keys') or [''])[0][:90]), flush=True)
+        r['equivalent'] = m['note'].startswith('EQUIVALENT')
+        print('%-5s %-4s %s %s' % (m['id'], m['property'], 'CAUGHT' if r.get('caught') else ('not caught (equivalent mutant, expected)' if r['equivalent'] else 'MISSED(exit %s)' % r.get('exit')), (r.get('keys') or [''])[0][:90]), flush=True)
     json.dump(results, open(rp, 'w'), indent=1)
     n = sum(1 for r in results if r.get('caught'))
-    print('%d of %d mutants caught' % (n, len(results)))
+    eq = sum(1 for r in results if r.get('equivalent') and not r.get('caught'))
+    print('%d of %d mutants caught; %d equivalent mutants not caught (expected); %d missed' % (n, len(results), eq, len(results) - n - eq))
 
 
 if __name__ == '__main__':
